@@ -170,11 +170,23 @@ def load_known():
     return data.get("findings", [])
 
 
+_GLOBS = {}
+
+
+def _glob(pat):
+    """only `*` is a wildcard; every other character (brackets included) is literal"""
+    if pat not in _GLOBS:
+        import re
+
+        _GLOBS[pat] = re.compile(".*".join(re.escape(x) for x in pat.split("*")))
+    return _GLOBS[pat]
+
+
 def match_known(prop, sig, known):
     for k in known:
         if k.get("property") != prop or k.get("status") != "known":
             continue
-        if fnmatch.fnmatchcase(sig, k["signature"]):
+        if _glob(k["signature"]).fullmatch(sig):
             return k
     return None
 
